@@ -7,6 +7,7 @@ R15.3 connect is symmetric and keyed by position (AtomTop.__hash__ is the index)
 R15.4 copies are independent: AtomTop.copy clones the bond set, MoleculeTop.copy rebuilds every attribute
 R15.5 the connectivity test contains no input-proportional recursion
 R15.6 repeated sections accumulate (same rule as C16/R16.1)
+R15.7 reading a topology keeps no table between calls (no cached file text)
 """
 from __future__ import annotations
 
